@@ -125,6 +125,9 @@ def run_check(prop, tier, batch_seed, workers, runs_override=None, budget_overri
             sim_time += c["sim_time"]
             ops += c["ops"]
             for k, v in c["stats"].items():
+                if k.startswith("worst_"):
+                    stats[k] = max(stats[k], v)
+                    continue
                 stats[k] += v
                 wstats[k] += v
             if c["truncated"]:
